@@ -831,16 +831,32 @@ func c04r3(c *core.Ctx) {
 				}
 			}
 			merge(sums[fr])
-			merge(sums[g])
-			core.InspectNoLits(g.Body, func(n ast.Node) bool {
-				if call, ok := n.(*ast.CallExpr); ok {
-					if k, cal, _ := m.Callee(call); k == core.CallStatic && cal != fr {
-						merge(sums[cal])
-						// one level deeper for cache.Reset-like helpers is not needed: storage.Reset is handled below
+			mergeWithCallees := func(h *core.Func) {
+				merge(sums[h])
+				core.InspectNoLits(h.Body, func(n ast.Node) bool {
+					if call, ok := n.(*ast.CallExpr); ok {
+						if k, cal, _ := m.Callee(call); k == core.CallStatic && cal != fr && sums[cal] != nil {
+							merge(sums[cal])
+							// one level deeper for cache.Reset-like helpers is not needed: storage.Reset is handled below
+						}
+					}
+					return true
+				})
+			}
+			mergeWithCallees(g)
+			// a private helper that is only a step of its callers' operation: what every caller does around the call
+			// belongs to the operation too (the target's entries may be dropped by the caller after the helper returns)
+			if g.Obj != nil && !g.Obj.Exported() && g.Recv == "storage" {
+				var callers []*core.Func
+				for _, cs2 := range m.CallSites() {
+					if cs2.Callee == g && cs2.Caller != g {
+						callers = append(callers, cs2.Caller)
 					}
 				}
-				return true
-			})
+				if len(callers) == 1 && callers[0].Obj != nil && !callers[0].Obj.Exported() {
+					mergeWithCallees(callers[0])
+				}
+			}
 			var problems []string
 			if !comb.active && !comb.clearAll["archetype.tables"] {
 				// FreeAllTables clears the active list as a whole
@@ -1253,6 +1269,29 @@ func cleanupRole(c *core.Ctx) map[*core.Func]bool {
 				if _, cal, _ := m.Callee(call); cal != nil {
 					out[cal] = true
 				}
+			}
+		}
+	}
+	// the role may be split into helpers: an unexported function all of whose call sites lie inside the role belongs to it
+	sites := m.CallSites()
+	for changed := true; changed; {
+		changed = false
+		for _, f := range m.Funcs {
+			if out[f] || f.Obj == nil || f.Obj.Exported() || f.Recv != "storage" {
+				continue
+			}
+			n, all := 0, true
+			for _, cs := range sites {
+				if cs.Callee == f {
+					n++
+					if !out[cs.Caller] {
+						all = false
+					}
+				}
+			}
+			if n > 0 && all {
+				out[f] = true
+				changed = true
 			}
 		}
 	}
